@@ -236,4 +236,107 @@ def ioBatch {ι β : Type} (c : RetryConfig) : List ι → List (Res β) → IoB
       ⟨calls ++ rest.calls, r.sleeps ++ rest.sleeps,
         rest.outcome.map (fun o => match o with | .ok vs => .ok (v :: vs) | .error e => .error e)⟩
 
+/-! ## the public entry points of `src/helpers/cloud.rs`, ONE model definition per Rust item
+
+Each wrapper is transliterated from its own body (line numbers of `src/helpers/cloud.rs`); the driver
+answers a request for wrapper `w` with the definition of `w` below, never with a shared one, so the
+correspondence run compares every real wrapper with its own model. That they all coincide with `retry` /
+`execute` / `batchInChunks` / `paginate` is *proved* in `Props/C18.lean` (`wrapper_eq_retry`,
+`builder_execute_eq`, …), not assumed by the driver. -/
+
+/-- `run_with_retry(config, operation) { retry_with_backoff(config, operation) }` (`:165`) -/
+def runWithRetry {α : Type} (c : RetryConfig) (script : List (Res α)) : RetryResult α :=
+  retry c script
+
+/-- `run_cloud_io_with_retry(config, operation) { retry_with_backoff(config, operation) }` (`:495`) -/
+def runCloudIoWithRetry {α : Type} (c : RetryConfig) (script : List (Res α)) : RetryResult α :=
+  retry c script
+
+/-- `run_cloud_io_with_retry_and_timeout(rc, timeout, op) { run_with_timeout_and_retry(rc, timeout, op) }` (`:610`) -/
+def runCloudIoWithRetryAndTimeout {α : Type} (c : RetryConfig) (limit : Nat) (script : List (Res α))
+    (durs : List Nat) : RetryResult α :=
+  runWithTimeoutAndRetry c limit script durs
+
+/-- `(None, Some(timeout)) => { let op = || operation(); with_timeout(timeout, op) }` -/
+def callOnceWithTimeout {α : Type} (limit : Nat) (script : List (Res α)) (durs : List Nat) : RetryResult α :=
+  let r := callOnce script
+  ⟨r.attempts, r.outcome.map (withTimeout limit (elapsedOf r durs)), r.sleeps⟩
+
+/-- `struct OperationBuilder { retry_config: Option<RetryConfig>, timeout: Option<Duration> }` (`:359`) -/
+structure OperationBuilder where
+  retryConfig : Option RetryConfig
+  timeout : Option Nat
+
+def OperationBuilder.new : OperationBuilder := ⟨none, none⟩
+def OperationBuilder.withRetry (b : OperationBuilder) (c : RetryConfig) : OperationBuilder :=
+  { b with retryConfig := some c }
+def OperationBuilder.withTimeout (b : OperationBuilder) (t : Nat) : OperationBuilder :=
+  { b with timeout := some t }
+
+/-- `OperationBuilder::execute` (`:390`), its own four-way `match (self.retry_config, self.timeout)` -/
+def OperationBuilder.execute {α : Type} (b : OperationBuilder) (script : List (Res α)) (durs : List Nat) :
+    RetryResult α :=
+  match b.retryConfig, b.timeout with
+  | some c, some t => runWithTimeoutAndRetry c t script durs
+  | some c, none => retry c script
+  | none, some t => callOnceWithTimeout t script durs
+  | none, none => callOnce script
+
+/-- `struct CloudIOExecutor { retry_config, timeout }` (`:643`) -/
+structure CloudIOExecutor where
+  retryConfig : Option RetryConfig
+  timeout : Option Nat
+
+def CloudIOExecutor.new : CloudIOExecutor := ⟨none, none⟩
+def CloudIOExecutor.withRetry (b : CloudIOExecutor) (c : RetryConfig) : CloudIOExecutor :=
+  { b with retryConfig := some c }
+def CloudIOExecutor.withTimeout (b : CloudIOExecutor) (t : Nat) : CloudIOExecutor :=
+  { b with timeout := some t }
+
+/-- `CloudIOExecutor::execute` (`:674`), its own four-way match -/
+def CloudIOExecutor.execute {α : Type} (b : CloudIOExecutor) (script : List (Res α)) (durs : List Nat) :
+    RetryResult α :=
+  match b.retryConfig, b.timeout with
+  | some c, some t => runWithTimeoutAndRetry c t script durs
+  | some c, none => retry c script
+  | none, some t => callOnceWithTimeout t script durs
+  | none, none => callOnce script
+
+/-- The retry-only entry points (request token of the harness in brackets):
+    `retry_with_backoff` [raw], `run_with_retry` [run], `run_cloud_io_with_retry` [cio],
+    `OperationBuilder::new().with_retry(c).execute` [bld], `CloudIOExecutor::new().with_retry(c).execute` [exe]. -/
+inductive RetryWrapper
+  | raw | run | cio | bld | exe
+  deriving DecidableEq, Repr
+
+def RetryWrapper.all : List RetryWrapper := [.raw, .run, .cio, .bld, .exe]
+
+/-- what the entry point `w`, configured with retry only, does on a script -/
+def runWrapper {α : Type} (w : RetryWrapper) (c : RetryConfig) (script : List (Res α)) : RetryResult α :=
+  match w with
+  | .raw => retry c script
+  | .run => runWithRetry c script
+  | .cio => runCloudIoWithRetry c script
+  | .bld => (OperationBuilder.new.withRetry c).execute script []
+  | .exe => (CloudIOExecutor.new.withRetry c).execute script []
+
+/-- `struct BatchConfig { chunk_size: usize, parallel: bool }` (`:283`) -/
+structure BatchConfig where
+  chunkSize : Nat
+  parallel : Bool
+
+/-- `run_batch_operation(items, config, processor) { batch_in_chunks(items, config.chunk_size, processor) }`
+    (`:268`; `config.parallel` is not read) -/
+def runBatchOperation {α β : Type} (items : List α) (cfg : BatchConfig) (f : Nat → List α → Res (List β)) :
+    List (List α) × Res (List β) :=
+  batchInChunks items cfg.chunkSize f
+
+/-- `run_paginated_operation(config, fetch_page) { paginate(config, fetch_page) }` (`:325`) -/
+def runPaginatedOperation {α : Type} (c : PageConfig) (script : List (Res (List α × Bool))) : PageResult α :=
+  paginate c script
+
+/-- `run_cloud_io_paginated(config, fetch_page) { paginate(config, fetch_page) }` (`:577`) -/
+def runCloudIoPaginated {α : Type} (c : PageConfig) (script : List (Res (List α × Bool))) : PageResult α :=
+  paginate c script
+
 end IB.Cloud
